@@ -20,7 +20,7 @@ RULE = ("Random event dictionaries: every subset/order of data/event/id/retry; d
         "of 1-6 events through the real ASGI (virtual time, pings interleaved) and WSGI (thread relay, 20 ms pings) SendEventResponse. "
         "Non-trivial = data contains a line/paragraph separator, is empty, or starts with space/colon, or the event lacks data; distinct = "
         "(event dict, charset).")
-RULE += ' Also: two streams written at the same time by two server threads (thread switch placed between library lines); text that is not in a Unicode normal form (decomposed, compatibility, singleton characters) in data, names and ids; every event that carries a retry writes it (the retry fields of the stream, in order); the same dict object yielded repeatedly, re-iterable producers served twice by one response object, data lines of 70 000 characters, a WSGI client that takes several ping intervals per chunk. WSGI producers that raise right after their last event (every event yielded before must arrive); a client that hangs up after 4x more blocks than events were yielded (an endless stream is reported, not waited for).'
+RULE += ' Also: two streams written at the same time by two server threads (thread switch placed between library lines); text that is not in a Unicode normal form (decomposed, compatibility, singleton characters) in data, names and ids; every event that carries a retry writes it (the retry fields of the stream, in order); the same dict object yielded repeatedly, re-iterable producers served twice by one response object, data lines of 70 000 characters, a WSGI client that takes several ping intervals per chunk. WSGI producers that raise right after their last event (every event yielded before must arrive); a client that hangs up after 4x more blocks than events were yielded (an endless stream is reported, not waited for). ASGI: 12 events under every pace (producer giving way 0-4 turns between events x send() taking 0-5 loop turns); one response object answering two overlapping ASGI requests that finish at different times; WSGI: a relay that waits four ping intervals for a free pool worker.'
 ASSUMPTIONS = [
     "data that ends in a line break may arrive with or without that last break (the statement does not say whether 'a\\n' has one or two lines); never with more",
     "events without a data key dispatch nothing by the standard; for them only the id/retry side effects and 'no event fired' are checked",
@@ -394,6 +394,19 @@ def run(ctx):
         cs = rng.choice(CHARSETS)
         one_object_two_clients(ctx, [gen_event(rng, cs) for _ in range(rng.randrange(1, 5))], cs)
         ctx.case(("one-object-two-clients", i, ctx.shard))
+    for i in range(ctx.scale(10, 600)):
+        cs = rng.choice(CHARSETS)
+        asgi_staggered_clients(ctx, [gen_event(rng, cs) for _ in range(rng.choice([2, 5, 12]))], cs, rng.choice([0.0, 0.015, 0.031]), rng.choice([0, 1, 2, 3]))
+        ctx.case(("asgi-staggered-clients", i, ctx.shard))
+    for pt in range(0, 5):
+        for st in range(0, 6):
+            if ctx.mine(pt * 6 + st):
+                asgi_turns(ctx, 12, pt, st)
+                ctx.case(("asgi-turns", pt, st))
+    for i in range(ctx.scale(3, 60)):
+        cs = rng.choice(CHARSETS)
+        relay_waits_for_a_worker(ctx, [gen_event(rng, cs) for _ in range(rng.randrange(1, 5))], cs, 0.02)
+        ctx.case(("relay-waits", i, ctx.shard))
     # two streams written by two server threads at once (placed thread switches)
     from vf import inflight
     pre = inflight.Preemptor()
@@ -437,6 +450,141 @@ def one_object_two_clients(ctx, events, charset):
         judge_stream(ctx, events, r.body.decode(charset), case, f"wsgi|one-object-two-clients|client-{n}")
 
 
+def asgi_staggered_clients(ctx, events, charset, offset, send_turns):
+    """ONE ASGI SendEventResponse over a re-iterable producer answers two requests that overlap: the second starts when the first has
+    been running for a while, so the first finishes first. Sends take `send_turns` loop turns (a client that reads slowly), the
+    producer pauses between events. Each client gets every event, in order."""
+    from baize import asgi
+
+    class Feed:
+        def __aiter__(self):
+            async def g():
+                for e in events:
+                    await asyncio.sleep(0.01)
+                    yield dict(e)
+            return g()
+    resp = asgi.SendEventResponse(Feed(), ping_interval=30, charset=charset)
+    got = {}
+
+    async def client(j, delay):
+        await asyncio.sleep(delay)
+        sent = []
+
+        async def send(m):
+            sent.append(m)
+            for _ in range(send_turns):
+                await asyncio.sleep(0)
+
+        async def receive():
+            await asyncio.Event().wait()
+        try:
+            await resp(drivers.to_scope(drivers.Req(path=b"/%d" % j)), receive, send)
+            got[j] = b"".join(m.get("body", b"") for m in sent if m.get("type") == "http.response.body")
+        except BaseException as e:  # noqa
+            got[j] = e
+
+    async def both():
+        await asyncio.gather(client(0, 0.0), client(1, offset))
+    lp = drivers.VLoop()
+    case = {"events": events, "charset": charset, "iface": "asgi", "one_object_two_clients": True, "second_client_starts_after": offset, "send_takes_loop_turns": send_turns}
+    ctx.mon("one-object-two-clients")
+    try:
+        lp.run_until_complete(asyncio.wait_for(both(), 10_000))
+    except asyncio.TimeoutError:
+        ctx.violation("one-object-two-clients|a-stream-never-ends|asgi", case, "10000 virtual seconds")
+        return
+    finally:
+        try:
+            lp.run_until_complete(lp.shutdown_asyncgens())
+        except Exception:
+            pass
+        lp.close()
+    for j in (0, 1):
+        if isinstance(got.get(j), BaseException):
+            ctx.violation(f"exception|one-object-two-clients|{type(got[j]).__name__}", case, repr(got[j])[:200])
+            return
+        judge_stream(ctx, events, got[j].decode(charset), case, f"asgi|one-object-two-clients|client-{j}")
+
+
+def asgi_turns(ctx, n, producer_turns, send_turns):
+    """(ASGI) the producer gives way `producer_turns` times between two events, every send() takes `send_turns` loop turns: for every
+    combination the client gets the events in the order they were yielded"""
+    from baize import asgi
+    events = [{"data": str(k), "id": str(k)} for k in range(n)]
+
+    async def producer():
+        for e in events:
+            for _ in range(producer_turns):
+                await asyncio.sleep(0)
+            yield dict(e)
+    sent = []
+
+    async def send(m):
+        sent.append(m)
+        for _ in range(send_turns):
+            await asyncio.sleep(0)
+
+    async def receive():
+        await asyncio.Event().wait()
+    lp = drivers.VLoop()
+    case = {"events": n, "iface": "asgi", "producer_gives_way_turns": producer_turns, "send_takes_loop_turns": send_turns}
+    ctx.mon("order-under-every-pace")
+    try:
+        lp.run_until_complete(asyncio.wait_for(asgi.SendEventResponse(producer(), ping_interval=30)(drivers.to_scope(drivers.Req()), receive, send), 10_000))
+    except Exception as e:  # noqa
+        ctx.violation(f"exception|asgi-stream|{type(e).__name__}", case, repr(e)[:200])
+        return
+    finally:
+        try:
+            lp.run_until_complete(lp.shutdown_asyncgens())
+        except Exception:
+            pass
+        lp.close()
+    body = b"".join(m.get("body", b"") for m in sent if m.get("type") == "http.response.body")
+    judge_stream(ctx, events, body.decode("utf-8"), case, "asgi|paced")
+
+
+def relay_waits_for_a_worker(ctx, events, charset, ping):
+    """(WSGI) every worker of the relay pool is busy with other streams when this one starts: for several ping intervals its client gets
+    pings only; once a worker is free, every event arrives"""
+    import threading
+    import time
+
+    import baize.wsgi.responses as R
+    from baize import wsgi
+    from baize.concurrency import ThreadPoolExecutor
+    _POOL_N[0] += 1
+    pool = ThreadPoolExecutor(max_workers=1, thread_name_prefix=f"c19busy{_POOL_N[0]}_")
+    R.SendEventResponse.thread_pool = pool
+    release = threading.Event()
+    out = {}
+    try:
+        pool.submit(release.wait, 10)  # (another stream's relay occupies the only worker)
+        resp = wsgi.SendEventResponse((dict(e) for e in events), ping_interval=ping, charset=charset)
+
+        def work():
+            out["r"] = drivers.run_wsgi(resp, drivers.to_environ(drivers.Req()))
+        t = threading.Thread(target=work, daemon=True, name="c19-waiting-client")
+        t.start()
+        time.sleep(ping * 4)
+        release.set()
+        t.join(20)
+        alive = t.is_alive()
+    finally:
+        release.set()
+        pool.shutdown(wait=True)
+    case = {"events": events, "charset": charset, "iface": "wsgi", "relay_waits_for_a_free_worker_for_ping_intervals": 4, "ping": ping}
+    ctx.mon("relay-waits-for-a-worker")
+    if alive:
+        ctx.inconclusive(f"relay waiting for a worker: the client did not finish within the watchdog ({case})")
+        return
+    r = out["r"]
+    if r.exc is not None:
+        ctx.violation(f"exception|relay-waits-for-a-worker|{type(r.exc).__name__}", case, repr(r.exc)[:200])
+        return
+    judge_stream(ctx, events, r.body.decode(charset), case, "wsgi|relay-waited-for-a-worker")
+
+
 def preempted_streams(ctx, pre, evs_a, evs_b, charset):
     """two event streams written out by two server threads at the same time: a thread switch placed between two library lines
     of one stream's writer, the whole other stream served in between (vf/inflight.py). Each client gets its own events."""
@@ -477,6 +625,18 @@ def _share(case):
 
 
 def replay(ctx, case):
+    if "producer_gives_way_turns" in case:
+        asgi_turns(ctx, case["events"], case["producer_gives_way_turns"], case["send_takes_loop_turns"])
+        ctx.case(1)
+        return
+    if "second_client_starts_after" in case:
+        asgi_staggered_clients(ctx, case["events"], case["charset"], case["second_client_starts_after"], case["send_takes_loop_turns"])
+        ctx.case(1)
+        return
+    if "relay_waits_for_a_free_worker_for_ping_intervals" in case:
+        relay_waits_for_a_worker(ctx, case["events"], case["charset"], case["ping"])
+        ctx.case(1)
+        return
     if case.get("one_object_two_clients"):
         one_object_two_clients(ctx, case["events"], case["charset"])
         ctx.case(1)
